@@ -50,6 +50,13 @@ var props = map[string]PropMeta{
 		Real: hubReal, Stub: hubStub,
 		QuickS: 40, ThoroughS: 600, QuickWorkers: 8,
 	},
+	"C15": {
+		Level: "exploration",
+		Rule: "metamorphic twin runs: one scenario on two real hubs - initial situation {completed connection, pending request, no connection} then 1-3 operations from {unregister, disconnect, cancel pairing, pairing detail, service lookup, register} - is executed twice with the very same choice tape: once passing canonical SKIs, once passing re-formatted ones (upper/mixed case, spaces, dashes; spellings drawn from a PRNG separate from the tape) to every hub call; the two observation logs (application callbacks, dials, close reports, PairingDetailForSki, ServiceForSKI().Trusted(), registry after every operation and at the end, with times) must be identical after mapping SKIs to node names; " +
+			"non-trivial = all twin runs; distinct = distinct (situation, operation sequence) tuples",
+		Real: hubReal, Stub: hubStub,
+		QuickS: 30, ThoroughS: 420, QuickWorkers: 8,
+	},
 	"C05": {
 		Level: "exploration",
 		Rule: "one run = two real hubs (optionally a third bystander) with generated certificates on the simulated network and mDNS medium: registration before/after Start, start skew 0..30 s, network latency 0..900 ms (optionally asymmetric), mDNS propagation 0..6 s, the dial back-off drawn per attempt (minimum / maximum / any), then 0-4 disturbances from {DisconnectSKI by either side, unsafe close, reset of all connections, half-open link, mDNS outage} at drawn times, then 300 quiet simulated seconds x seeded interleaving of all hub, ship, ws, http and harness tasks; oracle: exactly one transport connection open at both ends, registered on both sides, completed on both sides, a fresh payload crosses in each direction; " +
